@@ -155,7 +155,21 @@ TraceEnd ==
      /\ bridge' = st.bridge /\ tip' = st.tip /\ curKey' = st.curKey
   /\ UNCHANGED << now, height, bridgeDirty, acceptedLog >>
 
-TNext == TraceInitEv \/ TraceBegin \/ TraceEl \/ TraceVote \/ TraceNewVoter \/ TraceAccept
+(* export ; InitChain: the group, records, epoch, sequence, accumulator, keys are the same; the boarding queues hold the *)
+(* same members (their order is rebuilt from the records in address order)                                               *)
+TraceReimport ==
+  /\ IsEvent("reimport")
+  /\ LET st == Ev.st IN
+     /\ proposer = st.proposer /\ voters = st.voters /\ rec = RecOf(st)
+     /\ ToSet(onQ) = ToSet(st.onQ) /\ ToSet(offQ) = ToSet(st.offQ) /\ Len(onQ) = Len(st.onQ) /\ Len(offQ) = Len(st.offQ)
+     /\ epoch = st.epoch /\ lastElected = st.lastElected /\ accepted = st.accepted
+     /\ seq = st.seq /\ randao = st.randao /\ pubkeys = ToSet(st.pubkeys) /\ accounts = ToSet(st.accounts)
+     /\ tip = st.tip /\ curKey = st.curKey /\ bridge = st.bridge
+     /\ st.unknown = 0
+     /\ StateFrom(st)
+  /\ UNCHANGED << now, height, bridge, bridgeDirty, acceptedLog, tip, curKey >>
+
+TNext == TraceReimport \/ TraceInitEv \/ TraceBegin \/ TraceEl \/ TraceVote \/ TraceNewVoter \/ TraceAccept
          \/ TraceNonVoted \/ TraceOther \/ TraceEnd
 
 Reached == PrintT(<<"TRACE_REACHED", TLCGet("stats").diameter - 1, Len(Trace)>>)
